@@ -200,6 +200,7 @@ func finishEvidence() {
 	run.Set("B_search_commands_with_nontrivial_result", bst.searchNonEmpty)
 	run.Set("B_fetch_commands", bst.fetchCmds)
 	run.Set("B_fetch_compared_with_section_table", bst.fetchCompared)
+	run.Set("B_fetch_on_parts_that_do_not_exist(empty/NIL/refusal)", bst.fetchMissing)
 	run.Set("B_fetch_on_unspecified_sections(framing only)", bst.fetchUnspecified)
 	run.Set("B_list_commands", bst.listCmds)
 	run.Set("B_misc_commands", bst.miscCmds)
@@ -217,7 +218,7 @@ func finishEvidence() {
 		"a UID set containing '*' is not issued while the session has not been told about the newest message (RFC leaves open which message '*' means then)",
 		"COPY/MOVE of a mailbox onto itself and COPY/MOVE addressing no message may answer OK or NO; numbers beyond the session's view address nothing",
 		"EXAMINE: STORE/EXPUNGE may answer NO or OK-without-effect; the mailbox must not change (RFC 9051 §6.3.3)",
-		"FETCH sections the RFC does not define (parts that do not exist, HEADER/TEXT of a part that is not message/rfc822, MIME without part number, '.1' of a leaf part) are only checked for the framing clause; BODY[HEADER] of a message without the blank line may or may not end with CRLF",
+		"FETCH of a part that does not exist must be refused or return NIL/an empty string (data could only belong to another part); FETCH sections the RFC does not define (HEADER/TEXT of a part that is not message/rfc822, MIME without part number, '.1' of a leaf part) are only checked for the framing clause; BODY[HEADER] of a message without the blank line may or may not end with CRLF",
 		"origin octets >= 2^32 cannot be represented in the response ('<' number '>'): only the content is compared there; partial size 0 is not syntactically valid and not issued",
 		"SEARCH: no key matches RFC 2047 encoded words, MIME-decoded content or 8-bit text; dates are compared in the zone the INTERNALDATE/Date header carries; every corpus message has a Date header",
 		"LIST: patterns beginning with the hierarchy delimiter and references not ending with it are not issued (RFC 9051 §6.3.9: implementation-dependent); INBOX is matched case-sensitively in patterns",
